@@ -92,6 +92,7 @@ class CaseGen:
         self.r = random.Random(seed)
         self.uniq = 0
         self.avoid_known = avoid_known
+        self.defer_rate = 0.1     # batches handled only after the next edits (the watch loop was busy)
 
     # -- content ------------------------------------------------------------------------
     def snippet(self, d, text=None):
@@ -177,7 +178,9 @@ class CaseGen:
         if r.random() < 0.3:
             m.add_file(join(r.choice(dirs), "blob.bin"), bytes.fromhex(r.choice(BINARY)))
         if r.random() < 0.3:
-            m.add_file(join(r.choice(dirs), "__isograph/inner.ts"), HEADER + self.fresh_field())
+            q = join(r.choice(dirs), "__isograph/inner.ts")
+            if not q.startswith(self.artifact_rel + "/"):      # a nested __isograph folder, not the artifact directory
+                m.add_file(q, HEADER + self.fresh_field())
         m.schema = self.schema_text
         m.ext = self.ext_on if m.has_ext else None
         # write
@@ -503,7 +506,7 @@ class CaseGen:
                 ops.append(op)
                 touched += paths
             if ops:
-                steps.append({"ops": ops, "gc": r.random() < 0.25})
+                steps.append({"ops": ops, "gc": r.random() < 0.25, "defer": r.random() < self.defer_rate})
         return steps
 
 
@@ -518,7 +521,7 @@ def make_case(seed, root, idx, avoid_known=False):
 # ------------------------------------------------------------------------------------------
 # sim shards
 # ------------------------------------------------------------------------------------------
-def run_sim_shard(binary, work, cases, shard_idx, shrink=True, timeout=1500):
+def run_sim_shard(binary, work, cases, shard_idx, shrink=True, timeout=10800):
     """Runs the cases in a child; if the child dies (abort / stack overflow) the case it was
     working on is recorded as crashed and the rest is run in a new child.
     Returns dict(results=[per-case lines], summaries=[...], crashed=[case ids])."""
@@ -847,6 +850,9 @@ def real_session(cli, tool, seed, work, idx, n_steps):
                 if op.get("path", "").startswith(art + "/"):
                     strays.add(os.path.relpath(op["path"], art))
                     step_strays.add(os.path.relpath(op["path"], art))
+                in_art = [q for q in (op.get("path"), op.get("from"), op.get("to")) if q and (q + "/").startswith(art + "/")]
+                if in_art and op["op"] != "write":
+                    continue          # only stray writes are made inside the artifact directory
                 if apply_op_real(proj, op):
                     applied.append(op)
                     out["ops"][op["op"]] = out["ops"].get(op["op"], 0) + 1
